@@ -48,6 +48,7 @@ type deferRec struct {
 type panicExit struct {
 	cond string
 	st   *State
+	val  string // the panic value (an Any term)
 }
 
 // Frame is one activation (top-level or inlined).
@@ -69,7 +70,7 @@ type Frame struct {
 	loops           map[*ssa.BasicBlock]*loopInfo
 	inLoop          map[*ssa.BasicBlock][]*loopInfo
 	defers          []deferRec
-	onPanic         func(cond, kind, anchor string, st *State)
+	onPanic         func(cond, kind, anchor, val string, st *State)
 	panicExits      []panicExit
 	panicMode       bool
 	recoverVal      string
@@ -703,7 +704,27 @@ func (f *Frame) run(entry *State, entryPC string) {
 // raise: a panic happens under cond. Deferred closures of this frame that call
 // recover() catch it (control continues in the function's recover block);
 // otherwise it propagates to the caller frame / the top-level handler.
-func (f *Frame) raise(cond, kind, anchor string) {
+func (f *Frame) raise(cond, kind, anchor string) { f.raiseV(cond, kind, anchor, "") }
+
+// runtimeErr: the value of a run-time panic (nil dereference, index out of range, failed type assertion ...):
+// a runtime.Error, which is not a value of any type of this repository or of math/big.
+func (ex *Exec) runtimeErr() string {
+	n := "rt.panicval"
+	if !ex.heapDecl[n] {
+		ex.heapDecl[n] = true
+		ex.global(func() {
+			ex.emit("(declare-const " + n + " Any)")
+			ex.emit("(assert ((_ is box.other) " + n + "))")
+		})
+	}
+	return n
+}
+
+// raiseV: a panic with value val (an Any term; "" = a run-time error) happens under cond.
+func (f *Frame) raiseV(cond, kind, anchor, val string) {
+	if val == "" {
+		val = f.ex.runtimeErr()
+	}
 	var catch []string
 	for _, d := range f.defers {
 		if d.recovers {
@@ -712,11 +733,11 @@ func (f *Frame) raise(cond, kind, anchor string) {
 	}
 	caught := and(cond, or(catch...))
 	if len(catch) > 0 && caught != "false" {
-		f.panicExits = append(f.panicExits, panicExit{caught, f.st.clone()})
+		f.panicExits = append(f.panicExits, panicExit{caught, f.st.clone(), val})
 		cond = and(cond, not(or(catch...)))
 	}
 	if cond != "false" {
-		f.onPanic(cond, kind, anchor, f.st)
+		f.onPanic(cond, kind, anchor, val, f.st)
 	}
 }
 
@@ -733,11 +754,17 @@ func (f *Frame) runPanicExits(back map[[2]*ssa.BasicBlock]bool) {
 		ins = append(ins, mergeIn{pe.cond, pe.st})
 		conds = append(conds, pe.cond)
 	}
+	exits := f.panicExits
 	f.panicExits = nil
 	f.pc = ex.def(f.pfx+"pc", "Bool", or(conds...))
 	f.st = f.mergeStates(ins)
 	rv := ex.decl(f.pfx+"recovered", "Any")
 	ex.assume("(not (= " + rv + " nil.Any))")
+	for _, pe := range exits {
+		if pe.val != "" {
+			ex.assume(implies(pe.cond, "(= "+rv+" "+pe.val+")"))
+		}
+	}
 	f.panicMode, f.recoverVal = true, rv
 	f.runDefers()
 	f.panicMode = false
@@ -801,7 +828,7 @@ func (f *Frame) execBlock(b *ssa.BasicBlock, back map[[2]*ssa.BasicBlock]bool) {
 			}
 			f.rets = append(f.rets, retRec{pc: f.pc, vals: vals, st: f.st.clone(), blk: f.ex.curBlk})
 		case *ssa.Panic:
-			f.raise(f.pc, "explicit_panic", fmt.Sprintf("b%d", 0)+panicAnchor(x))
+			f.raiseV(f.pc, "explicit_panic", fmt.Sprintf("b%d", 0)+panicAnchor(x), f.val(x.X).T)
 		default:
 			f.execInstr(in)
 		}
